@@ -1,7 +1,13 @@
 /// Implements `get_eta_max`, `set_eta_max`, `get_eta_min`, and `set_eta_min` methods
+///
+/// The optional argument is a non-capturing closure `|s: &mut Self| -> Result<(), String>` that is
+/// run after `eta_interp` has been changed, for components that keep tables derived from it.
 #[macro_export]
 macro_rules! impl_get_set_eta_max_min {
     () => {
+        impl_get_set_eta_max_min!(|_s: &mut Self| Ok(()));
+    };
+    ($refresh:expr) => {
         /// Returns max value of `eta_interp`
         pub fn get_eta_max(&self) -> f64 {
             // since eta is all f64 between 0 and 1, NEG_INFINITY is safe
@@ -19,7 +25,8 @@ macro_rules! impl_get_set_eta_max_min {
                     .iter()
                     .map(|x| x * eta_max / old_max)
                     .collect();
-                Ok(())
+                let refresh: fn(&mut Self) -> Result<(), String> = $refresh;
+                refresh(self)
             } else {
                 Err(format!(
                     "`eta_max` ({:.3}) must be between 0.0 and 1.0",
@@ -38,9 +45,13 @@ macro_rules! impl_get_set_eta_max_min {
     };
 }
 
+/// The optional argument is as for [impl_get_set_eta_max_min].
 #[macro_export]
 macro_rules! impl_get_set_eta_range {
     () => {
+        impl_get_set_eta_range!(|_s: &mut Self| Ok(()));
+    };
+    ($refresh:expr) => {
         /// Max value of `eta_interp` minus min value of `eta_interp`.
         pub fn get_eta_range(&self) -> f64 {
             self.get_eta_max() - self.get_eta_min()
@@ -51,9 +62,10 @@ macro_rules! impl_get_set_eta_range {
         /// less than zero.
         pub fn set_eta_range(&mut self, eta_range: f64) -> Result<(), String> {
             let eta_max = self.get_eta_max();
+            let refresh: fn(&mut Self) -> Result<(), String> = $refresh;
             if eta_range == 0.0 {
                 self.eta_interp = vec![eta_max; self.eta_interp.len()];
-                Ok(())
+                refresh(self)
             } else if (0.0..=1.0).contains(&eta_range) {
                 let old_min = self.get_eta_min();
                 let old_range = self.get_eta_max() - old_min;
@@ -77,7 +89,7 @@ macro_rules! impl_get_set_eta_range {
                         self.get_eta_max()
                     ));
                 }
-                Ok(())
+                refresh(self)
             } else {
                 Err(format!(
                     "`eta_range` ({:.3}) must be between 0.0 and 1.0",
